@@ -283,6 +283,9 @@ func C03(e *core.Env) {
 					continue
 				}
 				replay["report"] = core.Trunc(out, 3000)
+				if reportTextCheck(e, "listing", compiled, data, clock.t, rc, out, replay) {
+					res.Count("report-bytes=equal")
+				}
 				got := map[string]bool{}
 				for _, r := range rep.Results {
 					got[sevLevel(r.Severity)+"|"+r.Name+"|"+r.Focus] = true
@@ -663,6 +666,9 @@ func C12(e *core.Env) {
 		for di, data := range datas {
 			out, err := pkg.ValidateWithConfiguration(profile, data, false, nil, clockA, rc)
 			replay := map[string]any{"profile": profile, "data": core.Trunc(data, 6000)}
+			if err == nil && reportTextCheckProfile(e, "deep / wide report", profile, data, clockA.t, false, rc, out, replay) {
+				res.Count("report-bytes=equal")
+			}
 			if err != nil {
 				replay["error"] = err.Error()
 				res.Violate("impl-violates-property", "validation fails: "+core.Trunc(err.Error(), 200), replay)
@@ -712,6 +718,9 @@ func C12(e *core.Env) {
  {"@id":"` + NodeID(1) + `","@type":"` + ExNS + `T","` + ExNS + `start":{"@value":"3","@type":"` + xsdNS + `long"},"` + ExNS + `end":{"@value":"2","@type":"` + xsdNS + `long"},"` + ExNS + `again":{"@value":"3","@type":"` + xsdNS + `long"}}]}`
 		out, err := pkg.ValidateWithConfiguration(profile, data, false, nil, clockA, rc)
 		replay := map[string]any{"profile": profile, "data": data}
+		if err == nil && reportTextCheckProfile(e, "typed literals", profile, data, clockA.t, false, rc, out, replay) {
+			res.Count("report-bytes=equal")
+		}
 		if err != nil {
 			replay["error"] = err.Error()
 			res.Violate("impl-violates-property", "validation fails: "+core.Trunc(err.Error(), 200), replay)
@@ -752,6 +761,9 @@ func C12(e *core.Env) {
 		profile := b.String()
 		out, err := pkg.ValidateWithConfiguration(profile, datas[si%2], false, nil, clockA, rc)
 		replay := map[string]any{"profile": profile, "data": core.Trunc(datas[si%2], 6000), "message_spelling": sp}
+		if err == nil && reportTextCheckProfile(e, "message spelling", profile, datas[si%2], clockA.t, false, rc, out, replay) {
+			res.Count("report-bytes=equal")
+		}
 		res.Case(fmt.Sprintf("message-spelling|%d", si), true)
 		res.Count("stream=message-spelling")
 		if err != nil {
